@@ -229,7 +229,9 @@ int main(int argc, char** argv) {
     struct Cfg { int n, dim, doconv; };
     std::vector<Cfg> cfgs;
     cfgs.push_back(Cfg{1, 0, 0});
-    int ncfg = (profile == 'I') ? 1 : 3;
+    // an ill-formed table must not be convolved (convolve then reads the knot vector out of bounds: undefined behaviour,
+    // subject of C07/C14, not of C19): profile I only loads
+    int ncfg = (profile == 'I') ? 0 : 3;
     for (int q = 0; q < ncfg; q++) {
       Cfg g; g.n = (q == 0 && c % 11 == 0 && fast0) ? 1 : r.range(2, 8); g.dim = (q == 0) ? (int)(c % nd) : (int)r.below(nd); g.doconv = 1;
       if (!fast0 && sh.order[g.dim] == 0) {
